@@ -243,6 +243,24 @@ class StmtMixin(CallMixin):
             elif isinstance(v.ty, Tup):
                 items = [T.tup_get(v, i) for i in range(len(v.ty.items))]
                 fa = getattr(v.ty, "flex_arity", None)
+                if fa is not None and tgt.elts and isinstance(tgt.elts[-1], ast.Starred):
+                    # `a, b, *rest = entry` on a tuple of context-dependent length n (modelled at maximal width): the
+                    # fixed targets take the first k components, `rest` is the list of the next n - k (quantifier-free)
+                    k = len(tgt.elts) - 1
+                    n = self.spec_eval(fa, st, old=self.entry)
+                    self.fork_raise(st, n.t < T.intval(k).t, "ValueError")
+                    rest = items[k:]
+                    ety = rest[0].ty
+                    if any(r.ty != ety for r in rest):
+                        raise Unsupported("star-unpack of a flexible tuple with a heterogeneous tail (line %s)" % self.cur_line)
+                    arr = z3.K(INT.sort(), rest[0].t)
+                    for i, r in enumerate(rest):
+                        arr = z3.Store(arr, T.intval(i).t, r.t)
+                    for t2, it in zip(tgt.elts[:-1], items[:k]):
+                        self.assume_valid(st, it)
+                        self.assign(st, t2, it)
+                    self.assign(st, tgt.elts[-1].value, T.list_mk(List(ety), arr, n.t - T.intval(k).t))
+                    return
                 if fa is not None:
                     # a tuple whose real length depends on context (wire-protocol version): modelled at its
                     # maximal width; unpacking into k names raises ValueError unless the real length is k
@@ -747,10 +765,15 @@ class StmtMixin(CallMixin):
         for r in st.flags.get("fresh", []):
             pass
         if st.flags.get("fresh"):
+            kinds = st.flags.get("fresh_cls", {})
             for (cls, fld) in list(st.heap):
+                if only is not None and (cls, fld) not in only and (cls, "*") not in only:
+                    continue                # the loop body never writes this field, of old objects or of new ones
                 m = st.heap[(cls, fld)]
                 ty = self.any_field_ty(cls, fld)
                 for r in st.flags["fresh"]:
+                    if kinds.get(r.get_id() if hasattr(r, "get_id") else None, cls) != cls:
+                        continue            # an object allocated as another class has no such field
                     m = z3.Store(m, r, z3.FreshConst(ty.sort(), "hvf"))
                 st.heap[(cls, fld)] = m
         self.alloc_boundary(st)
